@@ -416,13 +416,40 @@ func (r *Reader) Resolve(obj core.Object) (core.Object, error) {
 	return obj, nil
 }
 
+// maxResolveDepth bounds the nesting depth ResolveDeep follows.
+const maxResolveDepth = 256
+
 // ResolveDeep recursively resolves all indirect references in an object
 // Implements pages.ObjectResolver interface
+//
+// Object graphs in PDF files are commonly cyclic (every page refers to its
+// /Parent, which lists the page under /Kids), so the walk keeps track of the
+// indirect objects it is currently inside: a reference back to one of them, or
+// nesting deeper than maxResolveDepth, is reported as an error instead of being
+// followed forever.
 func (r *Reader) ResolveDeep(obj core.Object) (core.Object, error) {
+	return r.resolveDeep(obj, make(map[int]bool), 0)
+}
+
+func (r *Reader) resolveDeep(obj core.Object, visiting map[int]bool, depth int) (core.Object, error) {
+	if depth > maxResolveDepth {
+		return nil, fmt.Errorf("maximum resolve depth (%d) exceeded", maxResolveDepth)
+	}
+
 	// First resolve if it's a reference
-	resolved, err := r.Resolve(obj)
-	if err != nil {
-		return nil, err
+	resolved := obj
+	if ref, ok := obj.(core.IndirectRef); ok {
+		if visiting[ref.Number] {
+			return nil, fmt.Errorf("circular reference detected for object %d", ref.Number)
+		}
+		visiting[ref.Number] = true
+		defer delete(visiting, ref.Number)
+
+		var err error
+		resolved, err = r.ResolveReference(ref)
+		if err != nil {
+			return nil, err
+		}
 	}
 
 	// Recursively resolve based on type
@@ -430,7 +457,7 @@ func (r *Reader) ResolveDeep(obj core.Object) (core.Object, error) {
 	case core.Array:
 		result := make(core.Array, len(v))
 		for i, elem := range v {
-			resolvedElem, err := r.ResolveDeep(elem)
+			resolvedElem, err := r.resolveDeep(elem, visiting, depth+1)
 			if err != nil {
 				return nil, err
 			}
@@ -441,7 +468,7 @@ func (r *Reader) ResolveDeep(obj core.Object) (core.Object, error) {
 	case core.Dict:
 		result := make(core.Dict)
 		for key, val := range v {
-			resolvedVal, err := r.ResolveDeep(val)
+			resolvedVal, err := r.resolveDeep(val, visiting, depth+1)
 			if err != nil {
 				return nil, err
 			}
